@@ -78,7 +78,7 @@ def Armed (s : St) : Prop := Inv s ∧ s.flag .act = true ∧ s.flag .trig = tru
 /-- only the clear step and the set-inactive step make a flag false -/
 theorem step_flag_true {s s' : St} {t : Tid} {e : Ev} {m : Side} (hs : step s t e = some s')
     (hf : s.flag m = true) (h1 : s.pc t ≠ .aClear) (h2 : s.pc t ≠ .rStore) : s'.flag m = true := by
-  stepcases hs
+  trg_stepcases hs
   all_goals (first | exact hf | skip)
   all_goals (simp [St.setPc, updS_apply])
   all_goals (first | (split <;> simp_all; done) | (simp_all; done) | grind)
